@@ -751,6 +751,176 @@ static void do_B(char **t)
     oom_reset();
 }
 
+
+/* ---- D: wbxml_tree_from_wbxml() on a document assembled from shapes ----
+ *   OOM D <k1> <k2> <lang> <wb> <hdr> <strtbl> <pubid> <pre> <root> <body>
+ *   lang    W (WML 1.3) | R (DRMREL 1.0: opaque content of <ds:KeyValue> is base64-decoded)
+ *   wb      00 | - (wbxml_len = 0)
+ *   hdr     0 | 35 (a charset MIB the library does not know)
+ *   strtbl  - | Z<hex> (the table, as it is) | E54 (a length beyond the document)
+ *   pubid   K (the language's token) | U (a token no table has) | SF<idx> / SN<idx> / SE<idx> (string-table
+ *           reference: to the language's textual id / another string / beyond the table) | SX (index 0, no table)
+ *   pre     - | <attr>;<attr>...            processing instructions before the root
+ *   root    B<c><tag>~<attrs> | !45          c = 1: with content
+ *   body    - | <item>;<item>...
+ *   item    B<c><tag>~<attrs>  E  P<attr>  W (switchPage 0)  X<k> (EXT_k)  !<code>  C<l><content>
+ *           (l = C | V: whether the model is to expect a CDATA section; not looked at here)
+ *   content S<hex>  R<idx>.<hex>  D<hex>  B<hex>.<base64 hex>  N<code>.<utf8 hex>  XI<k>.<hex>  XT<k>.<idx>.<hex>
+ *   tag     T<row> | U | L<idx>.<hex>        attrs: - | <attr>|<attr>...
+ *   attr    <start>[:<piece>,<piece>...]     start: T<row>/<hex|N> | U | L<idx>.<hex>
+ *   piece   S<hex> | R<idx>.<hex> | D<hex> | E61
+ * Indices are positions in <strtbl>; the generator lays the table out.  Compared with the model: error code,
+ * requests, failures delivered, live blocks at exit (the tree), ledger fault, canonical dump of the tree. */
+static unsigned long d_idx(char **p) { unsigned long v = strtoul(*p, p, 10); if (**p == '.') (*p)++; return v; }
+
+static int d_errbytes(int code, Bld *b)
+{
+    switch (code) {
+    case 43: bputc(b, 0xC3); bputc(b, 0x87); bputc(b, 0xFF); bputc(b, 0xFF); bputc(b, 0x7F); return 1;   /* opaque length beyond the document */
+    case 48: case 52: bputc(b, 0x83); bputc(b, 0x87); bputc(b, 0xFF); bputc(b, 0xFF); bputc(b, 0x7F); return 1;   /* string-table index beyond the table / no table */
+    case 45: return 1;                                                                                        /* end of buffer: nothing */
+    default: return 0;
+    }
+}
+
+static int d_pieces(char *pieces, Bld *b)
+{
+    while (pieces && *pieces) {
+        char *np = strchr(pieces, ','); size_t n; unsigned char *x;
+        if (np) *np++ = 0;
+        if (pieces[0] == 'S') { x = hx_unhex(pieces + 1, &n); if (memchr(x, 0, n)) { free(x); return 0; } bputc(b, 0x03); bput(b, x, n); bputc(b, 0); free(x); }
+        else if (pieces[0] == 'R') { char *q = pieces + 1; bputc(b, 0x83); bput_mb(b, d_idx(&q)); }
+        else if (pieces[0] == 'D') { x = hx_unhex(pieces + 1, &n); bputc(b, 0xC3); bput_mb(b, n); bput(b, x, n); free(x); }
+        else if (pieces[0] == 'E') { int tk = unused_value_token(); if (tk < 0 || atoi(pieces + 1) != WBXML_ERROR_UNKNOWN_ATTR_VALUE) return 0; bputc(b, tk); }
+        else return 0;
+        pieces = np;
+    }
+    return 1;
+}
+
+static int d_attr(char *a, Bld *b)
+{
+    char *pieces = strchr(a, ':');
+    if (pieces) *pieces++ = 0;
+    if (a[0] == 'T') { char *sl = strchr(a, '/'); int row; const char *want; size_t n = 0; unsigned char *x = NULL;
+        if (!sl) return 0; *sl++ = 0; row = atoi(a + 1);
+        if (U_lang->attrTable[row].wbxmlCodePage != 0) return 0;
+        want = U_lang->attrTable[row].xmlValue;
+        if (strcmp(sl, "N") == 0) { if (want) return 0; }
+        else { x = hx_unhex(sl, &n); if (!want || strlen(want) != n || memcmp(want, x, n)) { free(x); return 0; } free(x); }
+        bputc(b, U_lang->attrTable[row].wbxmlToken); }
+    else if (a[0] == 'U') { int tk = unused_attr_token(); if (tk < 0) return 0; bputc(b, tk); }
+    else if (a[0] == 'L') { char *q = a + 1; bputc(b, 0x04); bput_mb(b, d_idx(&q)); }
+    else return 0;
+    return d_pieces(pieces, b);
+}
+
+static int d_elem(char *spec, Bld *b)       /* <c><tag>~<attrs> */
+{
+    int has_content = spec[0] == '1', has_attrs; char *tag = spec + 1, *attrs = strchr(spec, '~'); unsigned flags;
+    if (!attrs) return 0;
+    *attrs++ = 0;
+    has_attrs = strcmp(attrs, "-") != 0;
+    flags = (has_attrs ? 0x80 : 0) | (has_content ? 0x40 : 0);
+    if (tag[0] == 'T') { int row = atoi(tag + 1); if (U_lang->tagTable[row].wbxmlCodePage != 0) return 0; bputc(b, U_lang->tagTable[row].wbxmlToken | flags); }
+    else if (tag[0] == 'U') { int tk = unused_tag_token(); if (tk < 0) return 0; bputc(b, tk | flags); }
+    else if (tag[0] == 'L') { char *q = tag + 1; bputc(b, 0x04 | flags); bput_mb(b, d_idx(&q)); }
+    else return 0;
+    if (has_attrs) {
+        char *a = attrs;
+        while (a) { char *nexta = strchr(a, '|'); if (nexta) *nexta++ = 0; if (!d_attr(a, b)) return 0; a = nexta; }
+        bputc(b, 0x01);
+    }
+    return 1;
+}
+
+static int d_content(char *c, Bld *b)
+{
+    size_t n; unsigned char *x; char *q;
+    switch (c[0]) {
+    case 'S': x = hx_unhex(c + 1, &n); if (memchr(x, 0, n)) { free(x); return 0; } bputc(b, 0x03); bput(b, x, n); bputc(b, 0); free(x); return 1;
+    case 'R': q = c + 1; bputc(b, 0x83); bput_mb(b, d_idx(&q)); return 1;
+    case 'D': x = hx_unhex(c + 1, &n); bputc(b, 0xC3); bput_mb(b, n); bput(b, x, n); free(x); return 1;
+    case 'B': q = strchr(c, '.'); if (!q) return 0; *q = 0; x = hx_unhex(c + 1, &n); bputc(b, 0xC3); bput_mb(b, n); bput(b, x, n); free(x); return 1;
+    case 'N': q = c + 1; bputc(b, 0x02); bput_mb(b, d_idx(&q)); return 1;
+    case 'X':
+        if (c[1] == 'I' && c[2] >= '0' && c[2] <= '2' && c[3] == '.') { x = hx_unhex(c + 4, &n); if (memchr(x, 0, n)) { free(x); return 0; }
+            bputc(b, 0x40 + (c[2] - '0')); bput(b, x, n); bputc(b, 0); free(x); return 1; }
+        if (c[1] == 'T' && c[2] >= '0' && c[2] <= '2' && c[3] == '.') { q = c + 4; bputc(b, 0x80 + (c[2] - '0')); bput_mb(b, d_idx(&q)); return 1; }
+        return 0;
+    case '!': return d_errbytes(atoi(c + 1), b);
+    default: return 0;
+    }
+}
+
+static int d_item(char *it, Bld *b)
+{
+    switch (it[0]) {
+    case 'E': bputc(b, 0x01); return it[1] == 0;
+    case 'W': bputc(b, 0x00); bputc(b, 0x00); return it[1] == 0;
+    case 'X': if (it[1] < '0' || it[1] > '2' || it[2]) return 0; bputc(b, 0xC0 + (it[1] - '0')); return 1;
+    case 'B': return d_elem(it + 1, b);
+    case 'C': return (it[1] == 'C' || it[1] == 'V') && d_content(it + 2, b);
+    case 'P': bputc(b, 0x43); if (!d_attr(it + 1, b)) return 0; bputc(b, 0x01); return 1;
+    case '!': return d_errbytes(atoi(it + 1), b);
+    default: return 0;
+    }
+}
+
+static int d_list(char *s, int (*f)(char *, Bld *), Bld *b, int pi)
+{
+    if (strcmp(s, "-") == 0) return 1;
+    while (s) {
+        char *nx = strchr(s, ';');
+        if (nx) *nx++ = 0;
+        if (pi) { bputc(b, 0x43); if (!d_attr(s, b)) return 0; bputc(b, 0x01); }
+        else if (!f(s, b)) return 0;
+        s = nx;
+    }
+    return 1;
+}
+
+static void do_D(char **t)
+{
+    Bld doc = { NULL, 0, 0 }; const WBXMLLangEntry *save = U_lang; WBXMLTree *tree = NULL; WBXMLError ret; unsigned long live0; int ok = 1;
+    char *lang = t[4], *wb = t[5], *hdr = t[6], *st = t[7], *pid = t[8], *pre = t[9], *root = t[10], *body = t[11];
+    oom_reset();
+    U_lang = wbxml_tables_get_table(lang[0] == 'R' ? WBXML_LANG_DRMREL10 : WBXML_LANG_WML13);
+    bputc(&doc, 0x03);                                                   /* WBXML 1.3 */
+    if (pid[0] == 'K') bput_mb(&doc, U_lang->publicID->wbxmlPublicID);
+    else if (pid[0] == 'U') bput_mb(&doc, 0x3FFE);
+    else if (pid[0] == 'S' && pid[1] == 'X') { bputc(&doc, 0); bputc(&doc, 0); }
+    else if (pid[0] == 'S' && (pid[1] == 'F' || pid[1] == 'N' || pid[1] == 'E')) { bputc(&doc, 0); bput_mb(&doc, strtoul(pid + 2, NULL, 10)); }
+    else ok = 0;
+    if (strcmp(hdr, "0") == 0) bputc(&doc, 0x6A);                        /* UTF-8 */
+    else if (strcmp(hdr, "35") == 0) bput_mb(&doc, 0x3FFF);
+    else ok = 0;
+    if (strcmp(st, "-") == 0) bputc(&doc, 0);
+    else if (st[0] == 'Z') { size_t n; unsigned char *x = hx_unhex(st + 1, &n); if (!n) ok = 0; bput_mb(&doc, n); bput(&doc, x, n); free(x); }
+    else if (strcmp(st, "E54") == 0) bput_mb(&doc, 0x3FFF);
+    else ok = 0;
+    ok = ok && d_list(pre, NULL, &doc, 1);
+    if (ok && root[0] == 'B') ok = d_elem(root + 1, &doc);
+    else if (ok && root[0] == '!') ok = d_errbytes(atoi(root + 1), &doc);
+    else ok = 0;
+    ok = ok && d_list(body, d_item, &doc, 0);
+    if (!ok) printf("BADREQ\n");
+    else {
+        live0 = oom.live_blocks;
+        oom_window(strtoul(t[2], NULL, 10), strtoul(t[3], NULL, 10));
+        ret = wbxml_tree_from_wbxml(doc.p, strcmp(wb, "-") ? (WB_ULONG)doc.n : 0, WBXML_LANG_UNKNOWN, WBXML_CHARSET_UNKNOWN, &tree);
+        oom_stop();
+        printf("R %d | ", (int)ret); put_tail(live0);
+        printf(" | tree=");
+        if (!tree) printf("N"); else if (!tree->root) printf("-"); else b_dump(tree->root);
+        printf("\n");
+        if (tree) wbxml_tree_destroy(tree);
+    }
+    free(doc.p);
+    U_lang = save;
+    oom_reset();
+}
+
 static int unit_main(void)
 {
     char *line;
@@ -764,9 +934,11 @@ static int unit_main(void)
         else if (nt == 5 && !strcmp(t[0], "OOM") && !strcmp(t[1], "S")) do_S(t);
         else if (nt == 9 && !strcmp(t[0], "OOM") && !strcmp(t[1], "T")) do_T(t);
         else if (nt == 5 && !strcmp(t[0], "OOM") && !strcmp(t[1], "B")) do_B(t);
-        else if (nt == 2 && !strcmp(t[0], "OOM") && !strcmp(t[1], "INFO")) {
-            /* page-0 rows of the WML 1.3 tables the P and T verbs may name */
-            int i, any = 0;
+        else if (nt == 12 && !strcmp(t[0], "OOM") && !strcmp(t[1], "D")) do_D(t);
+        else if ((nt == 2 || nt == 3) && !strcmp(t[0], "OOM") && !strcmp(t[1], "INFO")) {
+            /* page-0 rows of the WML 1.3 tables the P and T verbs may name ("OOM INFO R": DRMREL 1.0, for D) */
+            int i, any = 0; const WBXMLLangEntry *save = U_lang;
+            if (nt == 3 && t[2][0] == 'R') U_lang = wbxml_tables_get_table(WBXML_LANG_DRMREL10);
             printf("INFO pubid=%lu tags=", (unsigned long)U_lang->publicID->wbxmlPublicID);
             for (i = 0; U_lang->tagTable[i].xmlName; i++) if (U_lang->tagTable[i].wbxmlCodePage == 0) { printf("%s%d", any ? "," : "", i); any = 1; }
             printf(" attrs="); any = 0;
@@ -775,7 +947,9 @@ static int unit_main(void)
                 if (U_lang->attrTable[i].xmlValue) hx_outs(stdout, U_lang->attrTable[i].xmlValue); else printf("N"); }
             printf(" tagtokens="); any = 0;
             for (i = 0; U_lang->tagTable[i].xmlName; i++) if (U_lang->tagTable[i].wbxmlCodePage == 0) { printf("%s%d:%d", any ? "," : "", i, U_lang->tagTable[i].wbxmlToken); any = 1; }
+            printf(" xmlid="); hx_outs(stdout, U_lang->publicID->xmlPublicID);
             printf("\n");
+            U_lang = save;
         }
         else puts("BADVERB");
         free(line);
